@@ -661,6 +661,50 @@ pub fn real_tree_matches_model(w: &World, model: &Model, root: Lid) -> Result<()
     rec(w, model, root, &t)
 }
 
+/// canonical text of a read-back tree, in the format of `Model::canon`
+pub fn canon_r(r: &RNode) -> String {
+    let mut s = String::new();
+    canon_r_into(r, &mut s);
+    s
+}
+fn canon_r_into(r: &RNode, s: &mut String) {
+    match &r.kind {
+        Kind::Doc => s.push_str("D("),
+        Kind::Elem(nm) => {
+            s.push_str("E{");
+            s.push_str(&nm.uri);
+            s.push('}');
+            s.push_str(&nm.local);
+            s.push('(');
+        }
+        Kind::Text(t) => {
+            s.push_str(&format!("T{:?}", t));
+            return;
+        }
+        Kind::Comment(t) => {
+            s.push_str(&format!("C{:?}", t));
+            return;
+        }
+        Kind::PI(t, d) => {
+            s.push_str(&format!("P{{{}}}{}:{:?}", t.uri, t.local, d));
+            return;
+        }
+        Kind::Attr(nm, v) => {
+            s.push_str(&format!("@{{{}}}{}={:?}", nm.uri, nm.local, v));
+            return;
+        }
+        Kind::Ns(p, u) => {
+            s.push_str(&format!("#{}={:?}", p, u));
+            return;
+        }
+    }
+    for c in r.ns.iter().chain(r.attrs.iter()).chain(r.kids.iter()) {
+        canon_r_into(c, s);
+        s.push(',');
+    }
+    s.push(')');
+}
+
 /// one-line rendering of a model subtree for messages
 pub fn brief(m: &Model, l: Lid) -> String {
     let mut s = m.canon(l);
